@@ -124,6 +124,41 @@ def toyNoRho : Oracle Unit := { toy with rho := fun s _ => (none, s) }
 theorem toyNoRho_ok : OracleOK toyNoRho :=
   { toy_ok with rho := by intro s n as b _ h; simp [toyNoRho] at h }
 
+/-- `toy` over a counter state: every sub-algorithm call is one tick (so that an abort predicate
+can flip "at instant k") -/
+def toyN : Oracle Nat where
+  pp := fun c _ => (none, c + 1)
+  prime := fun c m => (decide (m = 211 ∨ m = 223), c + 1)
+  rho := fun c m => (manyAt m, c + 1)
+  pm1q := fun c m => (manyAt m, c + 1)
+  ecmauto := fun c m => (pairAt m, c + 1)
+  pm1 := fun c m => (manyAt m, c + 1)
+  ecm := fun c m => (pairAt m, c + 1)
+  ecm128 := fun c m => (pairAt m, c + 1)
+  qs64 := fun c m => (pairAt m, c + 1)
+  squfof := fun c m => (pairAt m, c + 1)
+  abort := fun c _ => (false, c + 1)
+  sieve := fun c _ m => (if m = 47053 then .divs [211] else .divs [], c + 1)
+
+theorem toyN_ok : OracleOK toyN where
+  pp := by intro s n p k _ h; simp [toyN] at h
+  rho := fun _ _ _ _ _ h => manyAt_ok h
+  pm1q := fun _ _ _ _ _ h => manyAt_ok h
+  pm1 := fun _ _ _ _ _ h => manyAt_ok h
+  ecmauto := fun _ _ _ _ _ h => pairAt_ok h
+  ecm := fun _ _ _ _ _ h => pairAt_ok h
+  ecm128 := fun _ _ _ _ _ h => pairAt_ok h
+  qs64 := fun _ _ _ _ _ h => pairAt_ok h
+  squfof := fun _ _ _ _ _ h => pairAt_ok h
+  sieveDivs := fun _ alg n ds hn h => toy_ok.sieveDivs () alg n ds hn h
+  sieveUnexpected := fun _ alg n d hn h => toy_ok.sieveUnexpected () alg n d hn h
+
+/-- abort predicate that flips to `true` at tick `k` (and stays) -/
+def flipAt (k : Nat) : Nat → Nat → Bool × Nat := fun c _ => (decide (k ≤ c), c + 1)
+
+/-- a NON-monotone abort predicate: true only on even ticks -/
+def flicker : Nat → Nat → Bool × Nat := fun c _ => (decide (c % 2 = 0), c + 1)
+
 end Toy
 
 end Ymq.Factor
